@@ -421,6 +421,12 @@ class Interp:
                 return AV({"str"})
             if f.id in st and "other" in st[f.id].atoms:
                 # calling a local variable holding a class/function (e.g. role_cls(**features))
+                for k in c.keywords:
+                    if k.arg is None and not isinstance(k.value, ast.Dict):
+                        # the keys come from the input: a key equal to an already bound parameter ('self' for any class or
+                        # method) or unknown to a callee without **kwargs makes the CALL raise TypeError, whatever the values are
+                        self.escape("TypeError", fn, c, f"`{f.id}(**{ast.unparse(k.value)})`: keys are chosen by the peer; a key named 'self' "
+                                    f"(or any key the callee does not accept) raises TypeError at the call")
                 self._ev_args(st, c, fn)
                 return AV({"other"}, tags={"result-of-local-callable"})
         if isinstance(f, ast.Attribute):
